@@ -116,6 +116,21 @@ def second_round(rnd, tier):
     return out
 
 
+def max_param(d):
+    """largest NthPower / NthRoot parameter occurring anywhere in a recorded derivation"""
+    m = 0
+
+    def walk(e):
+        nonlocal m
+        if "k" in e and e["op"] in J.KUN:
+            m = max(m, e["k"])
+        for c in J.kids(e):
+            walk(c)
+    for f in d["forms"] + [d["nf"], d["norm"]]:
+        walk(f)
+    return m
+
+
 def points_for(tree, tier, rnd):
     vs = sorted(J.variables(tree))
     vals = [gen.q(-2), gen.q(-1), gen.q(0), gen.q(1, 2), gen.q(1), gen.q(2)]
@@ -226,6 +241,9 @@ def run(pid, tier, seed):
             continue
         except Exception as exc:
             rep.violation("C17.foreign_" + type(exc).__name__ if pid == "C17" else f"{pid}.rewriter_raised_{type(exc).__name__}", {"expr": J.show(t), "tree": t})
+            continue
+        if max_param(d) > 100000:
+            skipped_overflow += 1      # a parameter n beyond TLC's 32-bit integers (x ** 3 ** 20): excluded like overflow
             continue
         d["i"] = i
         d["pts"] = points_for(t, tier, rnd) if J.size(t) < 150 else points_for(t, "quick", rnd)[:8]
